@@ -98,6 +98,34 @@ Proof.
   - exists n. auto.
 Qed.
 
+(* everything a node holds except its name and its child index *)
+Definition attrs (n : node) : bool * bool * bytes * Z * Z * Z * Z :=
+  (ndir n, nhasdir n, ndata n, nmode n, nmtime n, nuid n, ngid n).
+Definition attrs_kept (s s' : mst) : Prop :=
+  forall r n, get_node s r = Some n -> exists n', get_node s' r = Some n' /\ attrs n' = attrs n.
+
+Lemma attrs_kept_refl s : attrs_kept s s.
+Proof. intros r n H. now exists n. Qed.
+Lemma attrs_kept_trans s1 s2 s3 : attrs_kept s1 s2 -> attrs_kept s2 s3 -> attrs_kept s1 s3.
+Proof.
+  intros H1 H2 r n Hr. destruct (H1 r n Hr) as (n2 & Hn2 & E2). destruct (H2 r n2 Hn2) as (n3 & Hn3 & E3).
+  exists n3. split; [exact Hn3 | congruence].
+Qed.
+Lemma attrs_upd s r g : (forall m, attrs (g m) = attrs m) -> attrs_kept s (upd_node s r g).
+Proof.
+  intros Hg x n Hx. rewrite get_upd. destruct (Nat.eqb r x) eqn:E.
+  - apply Nat.eqb_eq in E. subst x. rewrite Hx. cbn. exists (g n). auto.
+  - exists n. auto.
+Qed.
+Lemma attrs_move s f k2 : attrs_kept s (move_key s f k2).
+Proof.
+  intros x n Hx. rewrite get_move_key. destruct (Nat.eqb f x) eqn:E.
+  - apply Nat.eqb_eq in E. subst x. rewrite Hx. cbn. exists (with_name k2 n). auto.
+  - exists n. auto.
+Qed.
+Lemma attrs_kept_heap s s' : mheap s' = mheap s -> attrs_kept s s'.
+Proof. intros H r n Hr. exists n. unfold get_node in *. now rewrite H. Qed.
+
 Lemma nodup_snoc {A} (l : list A) x : NoDup l -> ~ In x l -> NoDup (l ++ [x]).
 Proof.
   intros Hl Hx. apply (Permutation_NoDup (l := x :: l)); [apply Permutation_cons_append | now constructor].
@@ -135,6 +163,11 @@ Record RInv (removes : list str) (s : mst) (todo : list nat) : Prop := mkRInv {
   ri_f : lookup s new = Some f /\ node_name s f = new
 }.
 
+Definition step_frame (s s' : mst) (d : nat) : Prop :=
+  below old (node_name s d) = true /\ lookup s (node_name s d) = Some d /\
+  (forall x, lookup s' x = if beqb (rwk (node_name s d)) x then Some d else lookup s x) /\
+  attrs_kept s s'.
+
 Lemma disj x : canon x -> atbelow old x -> atbelow new x -> False.
 Proof. apply disjoint_trees; auto. Qed.
 
@@ -159,7 +192,7 @@ Qed.
 
 Lemma rename_one_step removes s d todo :
   RInv removes s (d :: todo) ->
-  exists s', rename_one old new s d = Some (s', true) /\ RInv (removes ++ [node_name s d]) s' todo.
+  exists s', rename_one old new s d = Some (s', true) /\ RInv (removes ++ [node_name s d]) s' todo /\ step_frame s s' d.
 Proof.
   intros R. destruct (ri_todo_inv _ _ _ R d (or_introl eq_refl)) as (k & Hk & Hbk & HSk).
   pose proof (ri_g _ _ _ R) as G.
@@ -269,7 +302,11 @@ Proof.
     destruct (Nat.eqb q r) eqn:E; [|apply N3]. apply Nat.eqb_eq in E. subst r. rewrite <- (node_name_get s3 q qn3 Hqn3). apply N3. }
   assert (Lold : forall x r, atbelow old x -> lookup s x = Some r -> lookup s4 x = Some r).
   { intros x r Hx Hl. rewrite L4. assert (E : beqb k2 x = false) by (apply beqb_neq; intros <-; contradiction). now rewrite E. }
-  rewrite Hname. split.
+  unfold step_frame. rewrite Hname. split.
+  2:{ split; [exact Hbk|]. split; [exact Hk|]. split; [exact L4|].
+      eapply attrs_kept_trans; [apply (attrs_upd s q (del_kid k)); reflexivity|].
+      eapply attrs_kept_trans; [apply (attrs_move s1 d k2)|]. apply (attrs_upd s3 q (set_kid k2 d)). reflexivity. }
+  split.
   - exact G4.
   - intros k0 Hk0. apply Sof_snoc in Hk0 as [Hk0 | ->].
     + destruct (ri_S _ _ _ R k0 Hk0) as (Hat & r & Hr & Hrn). split; [exact Hat|]. exists r. split; [now apply Lold|].
@@ -312,16 +349,39 @@ Proof.
       now rewrite E.
 Qed.
 
-(* renameDescendants: the loop *)
-Lemma rename_descs_loop : forall todo removes s,
-  RInv removes s todo ->
-  exists s' removes', rename_descs old new s todo removes = Some (s', true, removes') /\ RInv removes' s' [].
+(* renameDescendants: the loop.  LF sref s: relative to the state sref at the start of the loop,
+   nodes keep their attributes, names not below new are untouched, and every name below new is the
+   rewriting of a name below old holding the same node. *)
+Record LF (sref s : mst) : Prop := mkLF {
+  lf_attrs : attrs_kept sref s;
+  lf_out : forall x, below new x = false -> lookup s x = lookup sref x;
+  lf_new : forall x r, below new x = true -> lookup s x = Some r ->
+           exists k0, below old k0 = true /\ x = rwk k0 /\ lookup sref k0 = Some r
+}.
+
+Lemma rename_descs_loop sref : forall todo removes s,
+  RInv removes s todo -> LF sref s ->
+  exists s' removes', rename_descs old new s todo removes = Some (s', true, removes') /\ RInv removes' s' [] /\ LF sref s'.
 Proof.
-  induction todo as [|d todo IH]; intros removes s R.
-  - exists s, removes. split; [reflexivity | exact R].
-  - destruct (rename_one_step removes s d todo R) as (s1 & Hone & R1).
-    destruct (IH _ _ R1) as (s' & removes' & Hloop & R').
-    exists s', removes'. split; [|exact R']. cbn [rename_descs]. rewrite Hone. exact Hloop.
+  induction todo as [|d todo IH]; intros removes s R F.
+  - exists s, removes. split; [reflexivity | split; [exact R | exact F]].
+  - destruct (rename_one_step removes s d todo R) as (s1 & Hone & R1 & Hbk & Hk & L1 & A1).
+    set (k := node_name s d) in *.
+    assert (Hck : canon k) by (apply (g_canon _ _ _ _ (ri_g _ _ _ R) k d Hk)).
+    assert (Hbn2 : below new (rwk k) = true) by (apply (rw_canon old new k Ho Hn Hnr Hck Hbk)).
+    assert (Hknew : below new k = false).
+    { destruct (below new k) eqn:E; [|reflexivity]. exfalso. apply (disj k Hck); now right. }
+    assert (F1 : LF sref s1).
+    { destruct F as [Fa Fo Fn]. split.
+      - eapply attrs_kept_trans; eauto.
+      - intros x Hx. rewrite L1. assert (E : beqb (rwk k) x = false) by (apply beqb_neq; intros <-; congruence).
+        rewrite E. now apply Fo.
+      - intros x r Hx Hl. rewrite L1 in Hl. destruct (beqb (rwk k) x) eqn:E.
+        + apply beqb_eq in E. subst x. inversion Hl; subst r. exists k. split; [exact Hbk|]. split; [reflexivity|].
+          rewrite <- (Fo k Hknew). exact Hk.
+        + now apply Fn. }
+    destruct (IH _ _ R1 F1) as (s' & removes' & Hloop & R' & F').
+    exists s', removes'. split; [|split; [exact R' | exact F']]. cbn [rename_descs]. rewrite Hone. exact Hloop.
 Qed.
 
 (* ---------- the deferred deletes ---------- *)
@@ -401,6 +461,31 @@ Proof.
   - exact (ri_f _ _ _ R).
 Qed.
 
+Lemma lookup_fold_del ks : forall s x,
+  lookup (fold_left del_key ks s) x = if in_dec str_eq_dec x ks then None else lookup s x.
+Proof.
+  induction ks as [|k ks IH]; intros s x; [reflexivity|]. cbn [fold_left]. rewrite IH, lookup_del_key.
+  destruct (in_dec str_eq_dec x ks) as [I|I]; destruct (in_dec str_eq_dec x (k :: ks)) as [J|J]; try reflexivity.
+  - exfalso. apply J. now right.
+  - destruct J as [->|J]; [now rewrite beqb_refl | contradiction].
+  - assert (E : beqb k x = false) by (apply beqb_neq; intros ->; apply J; now left). now rewrite E.
+Qed.
+Lemma mheap_fold_del ks : forall s, mheap (fold_left del_key ks s) = mheap s.
+Proof. induction ks as [|k ks IH]; intros s; [reflexivity|]. cbn [fold_left]. now rewrite IH. Qed.
+
+Lemma rw_at k0 : atbelow old k0 -> atbelow new (rwk k0).
+Proof.
+  intros [->|Hb]; [left; apply rw_self|]. right. apply below_spec in Hb as [t ->]. rewrite rw_app. apply below_spec. now exists t.
+Qed.
+
+(* the effect of a successful Rename on the path map and the nodes *)
+Record moved (s s' : mst) : Prop := mkMoved {
+  mv_attrs : attrs_kept s s';
+  mv_sub : forall k0, atbelow old k0 -> lookup s' (rwk k0) = lookup s k0;
+  mv_gone : forall k, atbelow old k -> lookup s' k = None;
+  mv_rest : forall k, ~ atbelow old k -> ~ atbelow new k -> lookup s' k = lookup s k
+}.
+
 (* the body of Rename once the source has been found and differs from the target *)
 Definition rename_body (s : mst) : mst * res :=
   match unregister s old with
@@ -425,7 +510,7 @@ Lemma rename_core s :
   WF s -> lookup s old = Some f ->
   (forall k r, lookup s k = Some r -> below new k = false) ->
   (exists pp ppn, lookup s (par new) = Some pp /\ get_node s pp = Some ppn /\ ndir ppn = true) ->
-  snd (rename_body s) = ROk /\ WF (fst (rename_body s)).
+  snd (rename_body s) = ROk /\ WF (fst (rename_body s)) /\ moved s (fst (rename_body s)).
 Proof.
   intros W Hl Hfree Hpnew.
   pose proof (WF_fresh s old f W Hl) as Hname.
@@ -496,22 +581,77 @@ Proof.
       now rewrite E.
     - split; [constructor | intros []].
     - split; [rewrite L3, beqb_refl; reflexivity | rewrite N3, Nat.eqb_refl; reflexivity]. }
-  destruct (rename_descs_loop _ _ _ R0) as (s4 & removes & Hloop & R4).
+  assert (F0 : LF s3 s3).
+  { split; [apply attrs_kept_refl | reflexivity|]. intros x r Hx Hlx. exfalso. rewrite L3 in Hlx.
+    destruct (beqb new x) eqn:E; [apply beqb_eq in E; subst x; rewrite below_irrefl in Hx; discriminate|].
+    rewrite (Hfree x r Hlx) in Hx. discriminate. }
+  destruct (rename_descs_loop s3 _ _ _ R0 F0) as (s4 & removes & Hloop & R4 & F4).
   pose proof (RInv_DInv _ _ R4) as D4.
   destruct (ri_rm _ _ _ R4) as [Hnd Hno].
   assert (Hnd' : NoDup (removes ++ [old])) by (now apply nodup_snoc).
-  pose proof (del_all _ _ Hnd' D4) as D6. rewrite fold_left_app in D6. cbn [fold_left] in D6.
+  assert (Eks : forall x, In x (removes ++ [old]) <-> Sof removes x).
+  { intros x. unfold Sof. rewrite in_app_iff. cbn. intuition congruence. }
+  pose proof (del_all _ _ Hnd' D4) as D6.
+  pose proof (lookup_fold_del (removes ++ [old]) s4) as L6.
+  pose proof (mheap_fold_del (removes ++ [old]) s4) as H6.
+  rewrite fold_left_app in D6, L6, H6. cbn [fold_left] in D6, L6, H6.
   set (s5 := fold_left del_key removes s4) in *. set (s6 := del_key s5 old) in *.
   assert (Ebody : rename_body s = (reg s6 f 0, ROk)).
   { unfold rename_body. rewrite Hun. cbv zeta. fold s3. rewrite Hloop. rewrite (fold_del_key removes s4). reflexivity. }
   rewrite Ebody. cbn [fst snd]. split; [reflexivity|].
-  destruct D6 as [G6 _ _ Hpn6 [Hfl6 Hfn6]]. destruct Hpn6 as (pp & ppn & Hpp & Hppn & Hppd).
+  pose proof D6 as [G6 _ Hall6 Hpn6 [Hfl6 Hfn6]]. destruct Hpn6 as (pp & ppn & Hpp & Hppn & Hppd).
   destruct (g_node _ _ _ _ G6 _ _ Hpp) as (ppn' & Hppn' & _ & Hpph & _). rewrite Hppn in Hppn'. inversion Hppn'; subst ppn'.
   unfold reg. rewrite (register_present _ s6 f 0 new pp ppn Hfn6 Hn Hpp Hppn) by congruence.
-  eapply GWF_to_WF; [| | |eapply (GWF_add_kid _ _ _ s6 new f pp ppn G6); eauto].
-  - intros x [[] _].
-  - intros x [Y1 Y2]. contradiction.
-  - intros x [].
+  split.
+  { eapply GWF_to_WF; [| | |eapply (GWF_add_kid _ _ _ s6 new f pp ppn G6); eauto].
+    - intros x [[] _].
+    - intros x [Y1 Y2]. contradiction.
+    - intros x []. }
+  (* the frame *)
+  assert (Hks_at : forall x, In x (removes ++ [old]) -> atbelow old x /\ canon x).
+  { intros x Hx. apply Eks in Hx. destruct (ri_S _ _ _ R4 x Hx) as (Hat & r & Hr & _). split; [exact Hat|].
+    apply (g_canon _ _ _ _ (ri_g _ _ _ R4) x r Hr). }
+  assert (L6' : forall x, ~ atbelow old x -> lookup s6 x = lookup s4 x).
+  { intros x Hx. rewrite L6. destruct (in_dec str_eq_dec x (removes ++ [old])) as [I|I]; [|reflexivity].
+    exfalso. apply Hx. now apply Hks_at. }
+  assert (Hsub4 : forall k0, atbelow old k0 -> lookup s4 (rwk k0) = lookup s k0).
+  { intros k0 [->|Hb].
+    - rewrite rw_self. rewrite (lf_out _ _ F4 new (below_irrefl new)). rewrite L3, beqb_refl. now rewrite Hl.
+    - assert (Hk0new : k0 <> new) by (intros ->; congruence).
+      assert (E3 : lookup s3 k0 = lookup s k0).
+      { rewrite L3. assert (E : beqb new k0 = false) by (apply beqb_neq; congruence). now rewrite E. }
+      destruct (lookup s k0) as [r|] eqn:Hk0.
+      + assert (Hc0 : canon k0) by (apply (g_canon _ _ _ _ W k0 r Hk0)).
+        assert (Hnb : below new k0 = false).
+        { destruct (below new k0) eqn:E; [|reflexivity]. exfalso. apply (disj k0 Hc0); now right. }
+        assert (E4 : lookup s4 k0 = Some r) by (rewrite (lf_out _ _ F4 k0 Hnb); congruence).
+        assert (HS : Sof removes k0).
+        { destruct (Sof_dec removes k0) as [Y|N]; [exact Y|]. destruct (ri_todo _ _ _ R4 k0 r E4 Hb N). }
+        destruct (ri_S _ _ _ R4 k0 HS) as (_ & r' & Hr' & Hrn). rewrite E4 in Hr'. inversion Hr'; subst r'.
+        destruct (g_node _ _ _ _ (ri_g _ _ _ R4) _ _ E4) as (n & Hgn & Hln & _).
+        rewrite <- (node_name_get s4 r n Hgn), Hrn in Hln. exact Hln.
+      + destruct (lookup s4 (rwk k0)) as [r|] eqn:E4; [|reflexivity]. exfalso.
+        assert (Hbn : below new (rwk k0) = true).
+        { destruct (rw_at k0 (or_intror Hb)) as [E|E]; [|exact E].
+          apply below_spec in Hb as [t ->]. rewrite rw_app in E.
+          assert (Hlen := f_equal (@length _) E). rewrite app_length in Hlen. cbn in Hlen. lia. }
+        destruct (lf_new _ _ F4 _ r Hbn E4) as (k1 & Hb1' & Erw & Hl1).
+        apply rw_inj in Erw; [|now apply below_prefix | now apply below_prefix]. subst k1. congruence. }
+  split.
+  - eapply attrs_kept_trans; [apply (attrs_upd s q0 (del_kid old)); reflexivity|].
+    eapply attrs_kept_trans; [apply (attrs_move s1 f new)|].
+    eapply attrs_kept_trans; [exact (lf_attrs _ _ F4)|].
+    eapply attrs_kept_trans; [apply (attrs_kept_heap s4 s6); exact H6|].
+    apply (attrs_upd s6 pp (set_kid new f)). reflexivity.
+  - intros k0 Hat. rewrite lookup_upd, L6.
+    destruct (in_dec str_eq_dec (rwk k0) (removes ++ [old])) as [I|I]; [|now apply Hsub4].
+    exfalso. destruct (Hks_at _ I) as [Hat2 Hc2]. apply (disj (rwk k0) Hc2 Hat2). now apply rw_at.
+  - intros k Hat. rewrite lookup_upd. destruct (lookup s6 k) as [r|] eqn:E6; [|reflexivity].
+    destruct (Hall6 k r E6 Hat).
+  - intros k Ho' Hn'. rewrite lookup_upd, (L6' k Ho').
+    assert (Hnb : below new k = false) by (destruct (below new k) eqn:E; [exfalso; apply Hn'; now right | reflexivity]).
+    rewrite (lf_out _ _ F4 k Hnb), L3.
+    assert (E : beqb new k = false) by (apply beqb_neq; intros <-; apply Hn'; now left). now rewrite E.
 Qed.
 End Rename.
 
@@ -548,25 +688,86 @@ Proof.
   - now apply is_dir_at_true.
 Qed.
 
-Lemma WF_rename s p q : WF s -> wf_op s (Rename p q) = true ->
-  WF (fst (m_rename s p q)) /\ (lookup s (normalize_path p) <> None -> snd (m_rename s p q) = ROk).
+Lemma rename_full s p q f : WF s -> wf_op s (Rename p q) = true ->
+  lookup s (normalize_path p) = Some f -> normalize_path p <> normalize_path q ->
+  snd (m_rename s p q) = ROk /\ WF (fst (m_rename s p q)) /\
+  moved (normalize_path p) (normalize_path q) s (fst (m_rename s p q)).
 Proof.
-  intros W Hwf. cbn [wf_op] in Hwf. apply andb_true_iff in Hwf as [Hn Hwf]. apply andb_true_iff in Hn as [Hn Hroot].
+  intros W Hwf Hl Eon. cbn [wf_op] in Hwf. apply andb_true_iff in Hwf as [Hn Hwf]. apply andb_true_iff in Hn as [Hn Hroot].
   apply andb_true_iff in Hn as [Hnp Hnq].
   set (old := normalize_path p) in *. set (new := normalize_path q) in *.
   assert (Ho : canon old) by now apply canon_normalize. assert (Hnc : canon new) by now apply canon_normalize.
   apply negb_true_iff, beqb_neq in Hroot.
-  destruct (lookup s old) as [f|] eqn:Hl.
-  2:{ unfold m_rename. fold old. rewrite Hl. split; [exact W | congruence]. }
-  destruct (beqb old new) eqn:Eon.
-  { unfold m_rename. fold old new. rewrite Hl, Eon. split; [exact W | reflexivity]. }
-  rewrite (m_rename_body s p q f Hl Eon). fold old new.
-  apply beqb_neq in Eon.
+  assert (Eon' : beqb old new = false) by now apply beqb_neq.
+  rewrite (m_rename_body s p q f Hl Eon'). fold old new.
   destruct (GWF_lookup_node _ _ _ _ _ _ W Hl) as (fn & Hfn).
   assert (Hko : kind_at s old = Some (ndir fn)) by (unfold kind_at; now rewrite Hl, Hfn).
-  rewrite Hko in Hwf. cbn [orb] in Hwf. apply andb_true_iff in Hwf as [Hb1 Hpre]. apply negb_true_iff in Hb1.
+  rewrite Hko, Eon' in Hwf. cbn [orb] in Hwf. apply andb_true_iff in Hwf as [Hb1 Hpre]. apply negb_true_iff in Hb1.
   destruct (rename_pre s old new f W Ho Hnc Hl Eon) as (Hnr & Hb2 & Hfree & Hpnew).
   { rewrite Hko. exact Hpre. }
-  destruct (rename_core old new f Ho Hnc Hroot Hnr Eon Hb1 Hb2 s W Hl Hfree Hpnew) as [Hres W'].
+  exact (rename_core old new f Ho Hnc Hroot Hnr Eon Hb1 Hb2 s W Hl Hfree Hpnew).
+Qed.
+
+Lemma WF_rename s p q : WF s -> wf_op s (Rename p q) = true ->
+  WF (fst (m_rename s p q)) /\ (lookup s (normalize_path p) <> None -> snd (m_rename s p q) = ROk).
+Proof.
+  intros W Hwf.
+  destruct (lookup s (normalize_path p)) as [f|] eqn:Hl.
+  2:{ unfold m_rename. rewrite Hl. split; [exact W | congruence]. }
+  destruct (beqb (normalize_path p) (normalize_path q)) eqn:Eon.
+  { unfold m_rename. rewrite Hl, Eon. split; [exact W | reflexivity]. }
+  apply beqb_neq in Eon. destruct (rename_full s p q f W Hwf Hl Eon) as (Hres & W' & _).
   split; [exact W' | intros _; exact Hres].
+Qed.
+
+(* ---------- Rename moves the subtree with contents intact ---------- *)
+(* what a name denotes: kind, contents, mode, modification time *)
+Definition entry_at (s : mst) (k : str) : option (bool * bytes * Z * Z) :=
+  match lookup s k with
+  | Some r => match get_node s r with Some n => Some (ndir n, ndata n, nmode n, nmtime n) | None => None end
+  | None => None
+  end.
+
+Lemma entry_at_moved s s' k k' :
+  WF s -> attrs_kept s s' -> lookup s' k' = lookup s k -> entry_at s' k' = entry_at s k.
+Proof.
+  intros W Ha Hl. unfold entry_at. rewrite Hl. destruct (lookup s k) as [r|] eqn:E; [|reflexivity].
+  destruct (GWF_lookup_node _ _ _ _ _ _ W E) as (n & Hn). destruct (Ha r n Hn) as (n' & Hn' & Ea).
+  rewrite Hn, Hn'. unfold attrs in Ea. inversion Ea. reflexivity.
+Qed.
+
+Definition suffix_ok (rest : str) : Prop := rest = [] \/ exists t, rest = SLASH :: t.
+
+Lemma atbelow_suffix a k : atbelow a k <-> exists rest, suffix_ok rest /\ k = a ++ rest.
+Proof.
+  split.
+  - intros [->|Hb]; [exists []; split; [now left | now rewrite app_nil_r]|].
+    apply below_spec in Hb as [t ->]. exists (SLASH :: t). split; [right; now exists t | reflexivity].
+  - intros (rest & [->|[t ->]] & ->); [left; apply app_nil_r | right; apply below_spec; now exists t].
+Qed.
+
+Theorem rename_moves_subtree s p q :
+  WF s -> wf_op s (Rename p q) = true ->
+  let old := normalize_path p in let new := normalize_path q in
+  lookup s old <> None -> old <> new ->
+  let s' := fst (m_step s (Rename p q)) in
+  snd (m_step s (Rename p q)) = ROk /\ WF s' /\
+  (forall rest, suffix_ok rest -> entry_at s' (new ++ rest) = entry_at s (old ++ rest)) /\
+  (forall rest, suffix_ok rest -> entry_at s' (old ++ rest) = None) /\
+  (forall k, ~ atbelow old k -> ~ atbelow new k -> entry_at s' k = entry_at s k).
+Proof.
+  intros W Hwf old new Hex Hne s'.
+  destruct (lookup s old) as [f|] eqn:Hl; [|congruence].
+  destruct (rename_full s p q f W Hwf Hl Hne) as (Hres & W' & [Ma Ms Mg Mr]). fold old new in Ms, Mg, Mr.
+  assert (Hst : m_step s (Rename p q) = (mkM (mdata (fst (m_rename s p q))) (mheap (fst (m_rename s p q)))
+                   (mhandles (fst (m_rename s p q))) (mclock (fst (m_rename s p q)) + 1), ROk)).
+  { unfold m_step. cbn [m_step_raw]. destruct (m_rename s p q) as [s1 r]. cbn [snd fst] in *. now subst r. }
+  set (s1 := fst (m_rename s p q)) in *.
+  assert (Ev : forall k, entry_at s' k = entry_at s1 k) by (intros k; unfold s'; rewrite Hst; reflexivity).
+  split; [now rewrite Hst|]. split; [unfold s'; rewrite Hst; cbn [fst]; eapply WF_view; [| |exact W']; reflexivity|].
+  split; [|split].
+  - intros rest Hr. rewrite Ev. apply entry_at_moved; auto.
+    rewrite <- (rw_app old new rest). apply Ms. apply atbelow_suffix. now exists rest.
+  - intros rest Hr. rewrite Ev. unfold entry_at. rewrite Mg; [reflexivity|]. apply atbelow_suffix. now exists rest.
+  - intros k H1 H2. rewrite Ev. apply entry_at_moved; auto.
 Qed.
